@@ -597,19 +597,14 @@ func (s *UnionSDF2) Evaluate(p v2.Vec) float64 {
 		}
 	}
 
-	var d float64
-	first := true
+	// The sdf with the closest bounding box gives an upper bound for the distance.
+	dm := s.sdf[minIndex].Evaluate(p)
+	d := dm
 	for i := range s.sdf {
-		// only an sdf whose min/max distances overlap
-		// the minimum box are worthy of consideration
-		if i == minIndex || vs[minIndex].Overlap(vs[i]) {
-			x := s.sdf[i].Evaluate(p)
-			if first {
-				first = false
-				d = x
-			} else {
-				d = s.min(d, x)
-			}
+		// An sdf is at least as far away as its bounding box:
+		// only those whose box is within the bound are worthy of consideration.
+		if i != minIndex && vs[i][0] <= dm*dm {
+			d = s.min(d, s.sdf[i].Evaluate(p))
 		}
 	}
 	return d
